@@ -418,6 +418,7 @@ func classifyConc(sc *ConcScenario, recs []callRec, v *Violation, init map[strin
 	isUpd := func(k OpKind) bool { return k == OpPut || k == OpRemove }
 	var trig []string
 	sameKey, prefixPair, idxGCvsCall, priGCvsUpd := false, false, false, false
+	sameKeyRemove, removedKey := false, ""
 	callErr := v.Symptom == "call-error" || v.Symptom == "panic"
 	involvesFailing := func(a, b callRec) bool {
 		if !callErr {
@@ -448,6 +449,10 @@ func classifyConc(sc *ConcScenario, recs []callRec, v *Violation, init map[strin
 			}
 			if a.Key == b.Key {
 				sameKey = true
+				if a.Op.Kind == OpRemove || b.Op.Kind == OpRemove {
+					sameKeyRemove = true
+					removedKey = a.Key
+				}
 			} else if a.Key != "K4" && b.Key != "K4" && (a.Op.Kind == OpRemove || b.Op.Kind == OpRemove) {
 				// a Remove overlapping an update of a different key of the
 				// same bucket (Index.Remove/Update match by stored prefix)
@@ -460,6 +465,17 @@ func classifyConc(sc *ConcScenario, recs []callRec, v *Violation, init map[strin
 	}
 	if prefixPair {
 		trig = append(trig, "remove-concurrent-with-update-in-same-bucket")
+	}
+	if sameKeyRemove && v.Symptom == "not-linearizable" {
+		// an update of a key raced with a Remove of the same key, and some
+		// call put a different key of the same bucket: the slower update
+		// matches that key's entry by stored prefix (Index.Update/Remove)
+		for _, r := range recs {
+			if r.Op.Kind == OpPut && r.Key != removedKey && r.Key != "K4" && removedKey != "K4" && r.Key != "K5" {
+				trig = append(trig, "stale-update-vs-new-key-in-same-bucket")
+				break
+			}
+		}
 	}
 	if idxGCvsCall && v.Symptom == "call-error" {
 		trig = append(trig, "call-overlaps-index-gc")
